@@ -235,7 +235,7 @@ func checkC20(r *Run) {
 		mod := m[:strings.LastIndex(m, ".")]
 		for _, ret := range Returns(f) {
 			t := P.TermAt(ret.Results[0], ret).String()
-			want := "types.MustSortJSON((*github.com/tendermint/go-amino.Codec).MustMarshalJSON(global:" + mod + ".ModuleCdc, param:msg))"
+			want := "types.MustSortJSON((*github.com/tendermint/go-amino.Codec).MarshalJSON(global:" + mod + ".ModuleCdc, param:msg)#0)"
 			r.Check(t == want, "C20-R5", m+".GetSignBytes", P.InstrPos(ret), t, m+".GetSignBytes is "+t+" ; required "+want)
 		}
 	}
